@@ -426,9 +426,18 @@ func (g *G) perm(n int) []int {
 }
 
 // genGraph: arbitrary topology (recurrent, self-loops, parallel links, time-delayed links), family name returned
+// bigGraph: the next genGraph call builds a network of 520..1150 nodes (sizes at which an implementation might switch
+// strategy - seeded C13-K: chunked parallel Flush for 512+ nodes), sparse enough for the model to follow
+var bigGraph bool
+
 func genGraph(g *G) (*netSpec, string) {
 	sp := &netSpec{id: g.intn(100)}
 	nBias, nIn, nOut, nHid := g.intn(3), 1+g.intn(3), 1+g.intn(3), g.intn(6)
+	big := bigGraph
+	bigGraph = false
+	if big {
+		nHid = 512 + g.intn(630)
+	}
 	if g.chance(0.1) {
 		nBias = 0
 	}
@@ -488,12 +497,53 @@ func genGraph(g *G) (*netSpec, string) {
 		}
 	}
 	nLinks := 1 + g.intn(3*n)
+	if big {
+		nLinks = n + g.intn(n)
+		family += "+big"
+	}
 	tdProb := 0.0
 	if g.chance(0.4) {
 		tdProb = 0.25
 		family += "+td"
 	}
 	selfLoops, cyc := false, false
+	if big {
+		// a shallow forest (every neuron one or two sources of a lower level, at most 5 levels): the number of paths stays
+		// linear, so depth queries and the activation loops are cheap; a few self loops keep recurrent state in play
+		level := make([]int, n)
+		byLevel := [][]int{append([]int{}, sp.inputs...)}
+		for _, i := range neurons {
+			if kinds[i] != network.HiddenNeuron {
+				continue
+			}
+			lv := g.intn(len(byLevel))
+			if lv > 3 {
+				lv = 3
+			}
+			for c := 0; c < 1+g.intn(2); c++ {
+				src := byLevel[lv][g.intn(len(byLevel[lv]))]
+				sp.links = append(sp.links, linkSpec{src: src, dst: i, w: pickWeight(g)})
+			}
+			if g.chance(0.05) {
+				sp.links = append(sp.links, linkSpec{src: i, dst: i, w: pickWeight(g)})
+				selfLoops = true
+			}
+			level[i] = lv + 1
+			if len(byLevel) <= lv+1 {
+				byLevel = append(byLevel, []int{})
+			}
+			byLevel[lv+1] = append(byLevel[lv+1], i)
+		}
+		for _, i := range neurons {
+			if kinds[i] == network.OutputNeuron {
+				for c := 0; c < 1+g.intn(3); c++ {
+					lv := g.intn(len(byLevel))
+					sp.links = append(sp.links, linkSpec{src: byLevel[lv][g.intn(len(byLevel[lv]))], dst: i, w: pickWeight(g)})
+				}
+			}
+		}
+		nLinks = 0
+	}
 	for k := 0; k < nLinks; k++ {
 		dst := neurons[g.intn(len(neurons))]
 		if g.chance(0.03) { // a link INTO a sensor
@@ -781,6 +831,7 @@ type flushRunOut struct {
 }
 
 func opFlushRun(g *G) (interface{}, []uint64, int, interface{}) {
+	bigGraph = g.caseNo%250 == 7 || g.chance(0.002)
 	sp, family := genGraph(g)
 	fast := g.chance(0.5)
 	in := &flushRunIn{Family: family, Solver: "std"}
